@@ -100,7 +100,9 @@ pub fn eval_native(ctx: &Ctx, c: &NativeCase) -> Verdict {
         while trace.lock().unwrap().iter().filter(|(k, _)| *k == "finished").count() < t && std::time::Instant::now() < deadline { std::thread::yield_now(); }
     }
     crate::rws_verif_hooks::set_pool_event_callback(None);
-    // the pool is leaked on purpose: its workers stay blocked in recv (dropping it would make them spin on the closed channel)
+    // the pool is leaked on purpose: its workers stay blocked in recv (dropping it would make them spin on the closed channel).
+    // Leaked threads add up over a worker's cases: the section is sized so that a worker process stays below a few thousand threads
+    // (8000 thorough cases ran into EAGAIN from pthread_create on a loaded machine)
     std::mem::forget(pool);
     if timed_out {
         NATIVE_POISONED.store(true, Ordering::SeqCst);
@@ -131,7 +133,7 @@ fn native_strategy() -> impl Strategy<Value = NativeCase> {
 
 pub fn run(ctx: &Ctx) {
     *ctx.max_shrink_iters.borrow_mut() = 40;
-    ctx.prop("native", ctx.share(ctx.scale(240, 8000)), native_strategy(), |c| eval_native(ctx, c));
+    ctx.prop("native", ctx.share(ctx.scale(240, 2400)), native_strategy(), |c| eval_native(ctx, c));
 }
 
 /// Replay: native cases here; shuttle cases through the sched binary (schedule string + configuration).
